@@ -242,7 +242,18 @@ class C01(CheckBase):
 
     def probe(self, ctx, m):
         p = ctx.p
-        for (s, t, rw) in m.sess:
+        sessions = [tuple(x) for x in m.sess]
+        # sessions opened NOW (hidden login state of a token, e.g. after its last session was closed, is only visible this way);
+        # the whole probe runs inside the state's snapshot, so they disappear with it
+        for t in ("A", "B"):
+            for rw in (1, 0):
+                if rw == 0 and m.login[t] == SO:
+                    continue
+                r = p.OpenSession(ctx.world["slots"][t], W.RW if rw else W.RO)
+                if r["rv"] == 0:
+                    sessions.append((r["h"], t, rw))
+                    ctx.count("fresh_sessions_probed")
+        for (s, t, rw) in sessions:
             user_here = m.login[t] == USER
             user_on_a = m.login["A"] == USER
             state = p.GetSessionInfo(s).get("state", -1)
